@@ -17,6 +17,32 @@ def _name_of(body, og, op, bb, si, names):
             return str(e['n'])
     if not proj and names.get(l):
         return names[l]
+    if not proj:
+        # an unnamed temporary: follow `tmp = copy/move X` (also through a clone / reborrow call) back to a named local or field
+        cur = l
+        for _ in range(6):
+            defs = [(b2, s2, st) for b2, s2, st in body.statements() if st['s'] == 'assign' and st['lhs']['l'] == cur and not st['lhs'].get('p')]
+            calls = [(b2, t2) for b2, t2 in body.calls() if t2['dest']['l'] == cur and not t2['dest'].get('p')]
+            src = None
+            if len(defs) == 1 and not calls:
+                rv = defs[0][2]['rv']
+                if rv['r'] == 'use' and rv['x'].get('o') in ('copy', 'move'):
+                    src = rv['x']['pl']
+                elif rv['r'] == 'ref':
+                    src = rv['pl']
+            elif len(calls) == 1 and not defs and len(calls[0][1]['args']) == 1 and \
+                    callee_res(calls[0][1]).rsplit('::', 1)[-1] in ('clone', 'to_owned', 'into', 'from', 'deref', 'as_ref', 'to_vec', 'unwrap'):
+                a = calls[0][1]['args'][0]
+                if a.get('o') in ('copy', 'move'):
+                    src = a['pl']
+            if src is None:
+                break
+            for e in reversed(src.get('p') or []):
+                if isinstance(e, dict) and 'f' in e and not str(e.get('n', '')).isdigit():
+                    return str(e['n'])
+            if names.get(src['l']) and not [e for e in (src.get('p') or []) if e != '*']:
+                return names[src['l']]
+            cur = src['l']
     t = og.of_operand(op, bb, si)
     seen = 0
     while t and seen < 12:
@@ -92,3 +118,24 @@ def crossed_fields(fx, bodies):
                         continue
                     if vi == fj and vj == fi and ftys.get(fields[i]) == ftys.get(fields[j]):
                         yield b, bb, si, strip_generics(str(st['rv'].get('adt'))), fields[i], fields[j]
+
+
+def run_rule(rep, fx, rid, prefixes, pre=''):
+    """Shared rule body: crossed argument / field names inside the modules of one property."""
+    rep.rule(rid, 'no crossed roles: in %s no call passes a value named like parameter j as parameter i while the value named like i goes to j (same types), and no struct literal '
+                  'fills two same-typed fields from values named like each other (names from the compiler\'s debug info of caller and callee)' % ', '.join(p.rstrip(':') for p in prefixes))
+    bodies = [b for b in fx.bodies if b.key.startswith(tuple(prefixes)) or b.key.startswith(tuple('<' + p for p in prefixes))]
+    n_calls = sum(1 for b in bodies for _bb, t in b.calls() if len(t['args']) >= 2)
+    hits = 0
+    for b, bb, callee, i, j, ni, nj in crossed_calls(fx, bodies):
+        hits += 1
+        rep.violation(rid, '%s%s/call:%s/args-%d-%d' % (pre, b.key, callee.rsplit('::', 2)[-2] + '::' + callee.rsplit('::', 1)[-1], i, j),
+                      '%s passes `%s` as parameter %d and `%s` as parameter %d of %s, whose parameters are named the other way round: the two values end up in each other\'s place' % (
+                          b.key, ni, i, nj, j, callee), b.where(bb))
+    for b, bb, si, adt, fi, fj in crossed_fields(fx, bodies):
+        hits += 1
+        rep.violation(rid, '%s%s/literal:%s/%s-%s' % (pre, b.key, adt.rsplit('::', 1)[-1], fi, fj),
+                      '%s builds %s with field `%s` filled from a value named `%s` and vice versa' % (b.key, adt, fi, fj), b.where(bb, si))
+    rep.check(len(bodies) >= 10 and n_calls >= 20, rid, pre + 'scanned', '%d bodies, %d multi-argument calls examined, %d crossed' % (len(bodies), n_calls, hits),
+              'the modules of this property were not found (%d bodies, %d calls): the rule would pass vacuously' % (len(bodies), n_calls), '')
+    rep.coverage_extra.setdefault('swaplint', {})[rid] = {'bodies': len(bodies), 'calls': n_calls, 'crossed': hits}
